@@ -44,7 +44,9 @@ def make_data(case):
         for (i, j, sgn) in edges:
             x[i, j, :] += sgn * eff
             x[j, i, :] += sgn * eff
-    if case.get('const'):
+    if case.get('const') and not case.get('scales'):
+        # (constant edges are only combined with exactly representable values: after an arbitrary rescaling the
+        #  "zero" variance of a constant sample is rounding noise on both sides)
         i, j = case['const']
         x[i, j, :] = x[j, i, :] = 1.0
         # paired: a constant NONZERO difference has an undefined (0-variance, +-inf) statistic whose floating-point
@@ -102,8 +104,8 @@ def oracle_t(xm, ym, tail, paired):
     else:
         t = np.array(O.tstat_ind(xm.T, ym.T), dtype=float)
         # zero pooled variance -> 0 by the library's convention
-        v = (xm.var(axis=1, ddof=1) * (xm.shape[1] - 1) + ym.var(axis=1, ddof=1) * (ym.shape[1] - 1))
-        t = np.where(v == 0, 0.0, t)
+        const = np.all(xm == xm[:, :1], axis=1) & np.all(ym == ym[:, :1], axis=1)   # exactly constant in both groups
+        t = np.where(const, 0.0, t)
     t = np.asarray(t, dtype=float)
     if tail == 'both':
         return np.abs(t)
